@@ -4,6 +4,8 @@
 
 use crate::be::{Bk, HalAll};
 use crate::c11::{self, VCase};
+use crate::c08::fam_big_scratch;
+use crate::c11::fam_ringv;
 use crate::for_backends;
 use crate::ops::{self, OpCase, Opts, ScratchMode};
 use poulpy_hal::layouts::Module;
@@ -302,6 +304,8 @@ where
 pub fn run_hal(run: &mut Run) {
     for_backends!(fam_v(run));
     for_backends!(fam_d(run));
+    for_backends!(fam_big_scratch(run));
+    for_backends!(fam_ringv(run));
     fam_arena::<crate::be::FFT64Ref>(run);
     fam_arena::<crate::be::NTT120Ref>(run);
     if crate::be::host_has_avx() {
@@ -314,12 +318,18 @@ pub fn replay(run: &mut Run, d: &Value) -> bool {
     let backend = d["backend"].as_str().unwrap_or("").to_string();
     let fam = d["family"].as_str().unwrap_or("").to_string();
     let seed = d["seed"].as_u64().unwrap_or(0);
-    if !fam.starts_with("hal_") && !fam.starts_with("scratch_arena") {
+    if !fam.starts_with("hal_") && !fam.starts_with("scratch_arena") && !fam.starts_with("big_normalize_scratch") && !fam.starts_with("ring_ops") {
         return false;
     }
     macro_rules! go {
         ($B:ty) => {{
-            if fam.starts_with("scratch_arena") {
+            if fam.starts_with("ring_ops") {
+                let c: crate::c11::RingVCase = serde_json::from_value(d["case"].clone()).unwrap();
+                run.single(&fam, "replay", |rec| crate::c11::exec_ringv::<$B>(&c, seed, rec));
+            } else if fam.starts_with("big_normalize_scratch") {
+                let c: crate::c08::Case = serde_json::from_value(d["case"].clone()).unwrap();
+                run.single(&fam, "replay", |rec| crate::c08::exec_scratch::<$B>(&c, seed, rec));
+            } else if fam.starts_with("scratch_arena") {
                 let c: ArenaCase = serde_json::from_value(d["case"].clone()).unwrap();
                 run.single(&fam, "replay", |rec| exec_arena::<$B>(&c, rec));
             } else if fam.starts_with("hal_coefficient_scratch") {
